@@ -42,7 +42,7 @@ def run(ctx):
 
     ctx.rule("T2: drop_empty_bucket returns Ok only on the is_zero()/is_empty() arm; WorktopBlueprint::drop drops the worktop only after "
              "drop_empty on every contained bucket")
-    for rm, test in ((FRM, r"Decimal::is_zero$|::is_zero$"), (NRM, r"::is_empty$")):
+    for rm, test in ((FRM, r"::is_zero$|::is_empty$"), (NRM, r"::is_zero$|::is_empty$")):
         n = rm + "::drop_empty_bucket"
         if ctx.anchor(n):
             b = ctx.body(n)
